@@ -91,7 +91,7 @@ def clStep (d : DrvSt) (op : Op) (refuse failOpen failBatch : Nat) (beh : List B
   let out :=
     if c.chaos then "chaos" else
     let r := match ret with | .none_ => "-" | .ok => "ok" | .err => "err"
-    s!"ret={r} main={fmtErrs c.mainErrs} handler={fmtErrs c.handlerRes} new={c.streams.length - c0.streams.length} " ++
+    s!"ret={r} new={c.streams.length - c0.streams.length} " ++
     s!"attempts={c.attempts - c0.attempts} map={fmtNats c.accts} cur={fmtNats c.cur.success} " ++
     s!"subs={fmtNats c.cur.subs} alive={bit c.cur.alive} open={bit c.isOpen}"
   ({ d with cl := c }, out)
